@@ -69,6 +69,36 @@ def bound_predicate(roles, op, issues=None):
         return b, e, facts.body(x[1]["key"]), idx, neg
     # shared helper with a negation flag
     if r[0] == "call" and r[1] and r[1]["local"]:
+        try:
+            return _bound_through_helper(roles, op, issues, b, e, r, vecp, operand_idx)
+        except Inconclusive as why:
+            # an adapter of another shape (`binary_predicate(js_op::strict_eq, items)`: the predicate is a function item
+            # called through the adapter's `fn(..)` parameter): what the entry returns on its paths, adapter expanded,
+            # parameters bound, constant function pointers resolved — Ok(Bool([!]P(items[i], items[j]))) on every path
+            from . import x_applied
+            ap = x_applied.read(facts, b, vecp)
+            got = set()
+            for _p, x in ap.paths:
+                x = strip_refs(x) if x is not None else ("?",)
+                v = strip_refs(x[2][0]) if (x[0] == "agg" and x[1].get("variant") == "Ok" and x[2]) else ("?",)
+                y = strip_refs(v[2][0]) if (v[0] == "agg" and v[1].get("adt") == VALUE and v[1].get("variant") == "Bool" and v[2]) else ("?",)
+                neg = False
+                while y[0] == "unop" and y[1] == "Not":
+                    neg = not neg
+                    y = strip_refs(y[2])
+                if not (y[0] == "call" and y[1] and y[1].get("local") and len(y[2]) == 2):
+                    raise why
+                got.add((y[1]["key"], tuple(operand_idx(b, a, vecp) for a in y[2]), neg))
+            if not ap.readable or len(got) != 1:
+                raise why
+            pk, idx, neg = list(got)[0]
+            return b, e, facts.body(pk), list(idx), neg
+    raise Inconclusive("operator %s does not return Ok(Bool(..)) directly" % op)
+
+
+def _bound_through_helper(roles, op, issues, b, e, r, vecp, operand_idx):
+    facts = roles.facts
+    if True:
         h = facts.body(r[1]["key"])
         pred = flag = None
         flag_pos = vec_pos = None
@@ -100,7 +130,6 @@ def bound_predicate(roles, op, issues=None):
         if idx is None:
             raise Inconclusive("the helper %s never applies the predicate to two operands" % h.key)
         return b, e, pred, idx, bool(flag)
-    raise Inconclusive("operator %s does not return Ok(Bool(..)) directly" % op)
 
 
 def negation_of(facts, fneg, fpos):
